@@ -372,7 +372,7 @@ pub fn run(r: &mut Report) {
     let mut d = Driver::spawn();
     let (shard, nshards) = shard();
     r.rule = "archives = 2..6 benign entries plus (hostile stream) entries with `..`, absolute and foreign-prefix names, links to a sibling crate / outside the cache, an own completion marker (file or link); the first fetch reads an archive cut short by a corrupt header after k entries (every k), the retry reads the intact archive; non-trivial = archive with >= 3 entries and a cut strictly inside; distinct by (archive, cut)".into();
-    let n = if r.thorough() { 2400 } else { 320 } / nshards;
+    let n = if r.thorough() { 4000 } else { 800 } / nshards;
     let mut rng = Rng::new(r.seed.wrapping_add(shard.wrapping_mul(67867967)) ^ 0xC19);
     std::env::set_var("CARGO_HOME", std::env::var("VERIF_WORK").map(|w| format!("{w}/no-cargo-home")).unwrap_or_else(|_| "/nonexistent-cargo-home".into()));
     let md = gen::GGraph { pkgs: vec![gen::GPkg { name: "rootpkg".into(), version: VetVersion::parse("1.0.0").unwrap(), source: 0, member: true, deps: vec![] }], resolve_order: vec![0], member_order: vec![0] }.metadata();
